@@ -168,22 +168,28 @@ def coq_judge(ctx, prefix, blocks, per_file=260):
     return [res[i] for i in range(len(blocks))]
 
 
-def enclosure(ctx, c, names, kind, r, ent):
-    """enclosure of one entry, for the report"""
+def enclosures(ctx, reqs):
+    """enclosures of the entries reqs = [(case, names, kind, row, entry)], for the report (one coqc)"""
     import re
     from values import parse_encl
-    tree = strip_sids(c['tree'])
-    benv = {k: v['value'] for k, v in c['betas'].items()}
-    term = json_to_coq(tree)
-    if kind == 'g':
-        term = f'(D (WBeta {coq_string(names[ent[0]])}) {term})'
-    elif kind == 'h':
-        term = f'(D (WBeta {coq_string(names[ent[1]])}) (D (WBeta {coq_string(names[ent[0]])}) {term}))'
-    txt = (HEADER + 'Set Printing Width 100000.\nEval vm_compute in (match evalI PhiI_none ' + term + ' ' +
-           coq_env({'beta': benv, 'var': c['rows'][r]}) + ' with VI i => Some (F.toF (I.lower i), F.toF (I.upper i)) | _ => None end).\n')
-    ok, out = ctx.coq_eval('c02_encl', txt)
+    if not reqs:
+        return []
+    lines = []
+    for (c, names, kind, r, ent) in reqs:
+        tree = strip_sids(c['tree'])
+        benv = {k: v['value'] for k, v in c['betas'].items()}
+        term = json_to_coq(tree)
+        if kind == 'g':
+            term = f'(D (WBeta {coq_string(names[ent[0]])}) {term})'
+        elif kind == 'h':
+            term = f'(D (WBeta {coq_string(names[ent[1]])}) (D (WBeta {coq_string(names[ent[0]])}) {term}))'
+        lines.append('Eval vm_compute in (match evalI PhiI_none ' + term + ' ' + coq_env({'beta': benv, 'var': c['rows'][r]}) +
+                     ' with VI i => Some (F.toF (I.lower i), F.toF (I.upper i)) | _ => None end).\n')
+    ok, out = ctx.coq_eval('c02_encl', HEADER + 'Set Printing Width 100000.\n' + ''.join(lines))
     m = re.findall(r'= (Some\s*\(.*?\)|None)\s*:\s*option', ' '.join(out.split()))
-    return parse_encl(m[0]) if m else None
+    if len(m) != len(reqs):
+        return [None] * len(reqs)
+    return [parse_encl(x) if x != 'None' else None for x in m]
 
 
 # ----------------------------------------------------------------------------------------- the stream
@@ -191,8 +197,7 @@ def make_cases(ctx, n):
     rng = ctx.sub_rng('deriv')
     cases = []
     for i in range(n):
-        c = c02_gen.gen_case(rng, max_depth=rng.choice([2, 3, 3, 4]), n_rows=3,
-                             p_powc2=0.04)
+        c = c02_gen.gen_case(rng, max_depth=rng.choice([2, 3, 3, 4]), n_rows=3, p_powc2=0.04, p_replin=0.04)
         add_renamed(c)
         c['threads'] = rng.choice([1, 1, 2, 3])
         cases.append(c)
@@ -460,7 +465,10 @@ def stream_deriv(ctx, only=None):
                     'the 2x2x2 modes, refusals, named outputs, order-reversing renaming, BIOGEME scaled/unscaled; '
                     'non-trivial = decided entry of a tree with >= 4 nodes; distinct by (tree, row, entry)')
     cases = only if only is not None else (corpus_cases() + make_cases(ctx, ctx.n(150, 2400)))
+    import time
+    t0 = time.time()
     res = ctx.impl_cases('c02_deriv.py', cases, chunk=ctx.n(10, 40), timeout=1500)
+    t_impl = time.time() - t0
     cov, blocks, binfo = {}, [], []
     nparams = {}
     for ci, (c, r) in enumerate(zip(cases, res)):
@@ -494,7 +502,9 @@ def stream_deriv(ctx, only=None):
         defs, items, meta = coq_case_text(ci, c, names, full, range(len(c['rows'])))
         blocks.append((defs, items))
         binfo.append((ci, c, names, meta, 'values', r))
+    t0 = time.time()
     verdicts = coq_judge(ctx, 'c02', blocks)
+    t_coq = time.time() - t0
     und = 0
     decided = {'f': 0, 'g': 0, 'h': 0}
     suspects = {}
@@ -519,51 +529,80 @@ def stream_deriv(ctx, only=None):
             if t == 'Differ' or not finite(y):
                 suspects.setdefault(ci, (c, names, r, []))[3].append((what, ri, ent, y))
     # ---- failing-input search on the suspects: enclosure for the report, x**2 attribution, finite differences
+    t0 = time.time()
     if suspects:
         investigate(ctx, st, suspects)
-    st.extra.update({'undecided': und, 'decided_entries': decided, 'operator_coverage': cov, 'free_parameters_histogram': nparams,
+    st.extra['wall_investigate_s'] = round(time.time() - t0, 1)
+    st.extra['refused_cases'] = sum(1 for b in binfo if b[4] == 'refused')
+    st.extra.update({'wall_impl_s': round(t_impl, 1), 'wall_coq_s': round(t_coq, 1), 'undecided': und, 'decided_entries': decided, 'operator_coverage': cov, 'free_parameters_histogram': nparams,
                      'max_depth': max([tree_depth(c['tree']) for c in cases] or [0]),
                      'trees_with_sharing': sum(1 for c in cases if count_shared(c['tree']) > 0)})
     if st.disagreements:
         ctx.stream_broken('deriv_engine', f'{len(st.disagreements)} disagreements; first: {json.dumps(st.disagreements[0], default=str)[:800]}')
 
 
+KNOWN_REWRITES = [
+    # (name, applies to the tree?, rewrite, key)
+    ('lin', c02_gen.has_replin, lambda t: c02_gen.rewrite_powc2(t, powc2=False, linutil=True),
+     'C02/derivative/bioLinearUtility-repeated-parameter'),
+    ('pow', c02_gen.has_powc2, lambda t: c02_gen.rewrite_powc2(t, powc2=True, linutil=False),
+     'C02/hessian/PowerConstant-2'),
+    ('both', lambda t: c02_gen.has_powc2(t) and c02_gen.has_replin(t), lambda t: c02_gen.rewrite_powc2(t, powc2=True, linutil=True),
+     'C02/derivative/bioLinearUtility-repeated-parameter+PowerConstant-2'),
+]
+
+
 def investigate(ctx, st, suspects):
-    """every differing entry is a violation; its class is refined: a Hessian entry of a tree containing x**2 whose engine value becomes
-    right when x**2 is rewritten x*x is attributed to PowerConstant (known finding)"""
+    """failing-input search on the cases with an entry outside its enclosure.  Every such entry is a violation; its class is
+    refined: when the engine becomes right on EVERY entry once x**2 is rewritten x*x (resp. a bioLinearUtility with a repeated
+    parameter is rewritten as a sum of products -- same mathematical function, same model tree), the violation is attributed
+    to that operator (known findings).  Finite differences (third opinion) are attached to the report."""
     items = list(suspects.items())
-    # third opinion + rewritten trees, in one implementation pass
     extra_cases, index = [], []
     for ci, (c, names, r, bad) in items:
         c3 = {k: v for k, v in c.items() if k != 'renamed'}
         c3['third_opinion'] = True
         extra_cases.append(c3)
         index.append((ci, 'fd'))
-        if c02_gen.has_powc2(c['tree']) and all(w == 'h' for (w, _, _, _) in bad):
-            c4 = {k: v for k, v in c.items() if k != 'renamed'}
-            c4['tree'] = c02_gen.rewrite_powc2(c['tree'])
-            extra_cases.append(c4)
-            index.append((ci, 'rw'))
+        only_h = all(w == 'h' for (w, _, _, _) in bad)
+        for nm, applies, rewrite, _ in KNOWN_REWRITES:
+            if applies(c['tree']) and (nm != 'pow' or only_h):
+                c4 = {k: v for k, v in c.items() if k != 'renamed'}
+                c4['tree'] = rewrite(c['tree'])
+                extra_cases.append(c4)
+                index.append((ci, nm))
     eres = ctx.impl_cases('c02_deriv.py', extra_cases, chunk=4, timeout=1500)
     fd, rw = {}, {}
     for (ci, kind), rr in zip(index, eres):
-        (fd if kind == 'fd' else rw)[ci] = rr
-    # model verdicts on the rewritten engine outputs (same trees in the model: x**2 and x*x have the same semantics)
+        if kind == 'fd':
+            fd[ci] = rr
+        else:
+            rw[(ci, kind)] = rr
+    # model verdicts on the engine outputs of the rewritten formulas (the model tree is unchanged: same semantics)
+    cmap = dict(items)
     blocks, binfo = [], []
-    for ci, (c, names, r, bad) in items:
-        rr = rw.get(ci)
+    for (ci, kind), rr in rw.items():
+        c, names = cmap[ci][0], cmap[ci][1]
         full = (rr or {}).get('modes', {}).get('TTT_dis') if rr else None
-        if full and 'exc' not in full and shape_ok(full['h'], [len(c['rows']), len(names), len(names)]):
-            defs, its, meta = coq_case_text(ci, c, names, full, range(len(c['rows'])))
+        n, k = len(c['rows']), len(names)
+        if full and 'exc' not in full and shape_ok(full['f'], [n]) and shape_ok(full['g'], [n, k]) and shape_ok(full['h'], [n, k, k]):
+            defs, its, meta = coq_case_text(ci, c, names, full, range(n))
             blocks.append((defs, its))
-            binfo.append(ci)
+            binfo.append((ci, kind))
     rw_ok = {}
     if blocks:
-        for ci, toks in zip(binfo, coq_judge(ctx, 'c02rw', blocks)):
-            rw_ok[ci] = all(t != 'Differ' for t in toks)
+        for key_, toks in zip(binfo, coq_judge(ctx, 'c02rw', blocks)):
+            rw_ok[key_] = all(t != 'Differ' for t in toks)
+    reqs = [(c, names, what, ri, ent) for ci, (c, names, r, bad) in items for (what, ri, ent, y) in bad[:6]]
+    encs = iter(enclosures(ctx, reqs))
     for ci, (c, names, r, bad) in items:
+        attributed = None
+        for nm, _, _, key_ in KNOWN_REWRITES:
+            if rw_ok.get((ci, nm)):
+                attributed = key_
+                break
         for (what, ri, ent, y) in bad[:6]:
-            enc = enclosure(ctx, c, names, what, ri, ent)
+            enc = next(encs)
             third = None
             f3 = fd.get(ci) or {}
             if 'findiff' in f3 and 'exc' not in f3['findiff']:
@@ -575,15 +614,17 @@ def investigate(ctx, st, suspects):
                 except Exception:  # noqa
                     third = None
             label = {'f': 'value', 'g': 'gradient', 'h': 'hessian'}[what]
-            key = f'C02/{label}/{root_kind(c["tree"])}'
-            if what == 'h' and rw_ok.get(ci):
-                key = 'C02/hessian/PowerConstant-2'
+            key = attributed or f'C02/{label}/{root_kind(c["tree"])}'
             case = {'tree': strip_sids(c['tree']), 'row': ri, 'what': what, 'entry': ent}
-            st.disagree(case, {'model_enclosure': enc, 'finite_differences': third}, y)
-            ctx.violation(key, f'{label} entry {list(ent) if ent else ""} of observation {ri} returned by the engine lies outside the proved enclosure of '
-                          f'the {"value" if what == "f" else "derivative"}',
-                          witness(c, names, row=ri, entry=ent or ()), {'model_enclosure': enc, 'finite_differences_third_opinion': third,
-                                                                       'check_derivatives': (f3.get('findiff') or {}).get('check_derivatives')}, y, HOW)
+            fresh = ctx.violation(key, f'{label} entry {list(ent) if ent else ""} of observation {ri} returned by the engine lies outside the proved '
+                                  f'enclosure of the {"value" if what == "f" else "derivative"}',
+                                  witness(c, names, row=ri, entry=ent or ()),
+                                  {'model_enclosure': enc, 'finite_differences_third_opinion': third,
+                                   'check_derivatives': (f3.get('findiff') or {}).get('check_derivatives')}, y, HOW)
+            if fresh:    # (an entry attributed to a known finding does not break the stream)
+                st.disagree(case, {'model_enclosure': enc, 'finite_differences': third}, y)
+            else:
+                st.extra['known_finding_entries'] = st.extra.get('known_finding_entries', 0) + 1
 
 
 # ----------------------------------------------------------------------------------------- driver
@@ -610,7 +651,7 @@ def make_cases_search(ctx):
     rng = ctx.sub_rng('search')
     cases = []
     for i in range(ctx.n(60, 600)):
-        c = c02_gen.gen_case(rng, max_depth=rng.choice([2, 3]), n_rows=3, p_powc2=0.0)
+        c = c02_gen.gen_case(rng, max_depth=rng.choice([2, 3]), n_rows=3, p_powc2=0.0, p_replin=0.0)
         add_renamed(c)
         cases.append(c)
     return cases
